@@ -111,12 +111,18 @@ impl BuildRecord {
             }
         }
 
-        // The build number is served in the BuildId!DEC:4 column
-        if !self.build.bytes().all(|b| b.is_ascii_digit()) {
+        // The build number is served in the BuildId!DEC:4 column, which BPSV readers
+        // parse as a signed 64-bit decimal: a longer digit string would be served
+        // verbatim and make every versions/bgdl response of the product unreadable.
+        if !self.build.bytes().all(|b| b.is_ascii_digit()) || self.build.parse::<i64>().is_err() {
             return Err(DatabaseError::InvalidField {
                 field: "build".to_string(),
                 build_id: self.id,
-                reason: format!("expected a decimal number, got '{}'", self.build),
+                reason: format!(
+                    "expected a decimal number up to {}, got '{}'",
+                    i64::MAX,
+                    self.build
+                ),
             });
         }
 
@@ -379,6 +385,18 @@ mod tests {
         build.cdn_config = "gggggggggggggggggggggggggggggggg".to_string();
         let err = build.validate().unwrap_err();
         assert!(matches!(err, DatabaseError::InvalidField { .. }));
+    }
+
+    #[test]
+    fn test_build_number_must_fit_the_dec_column() {
+        let mut build = create_test_build();
+        build.build = i64::MAX.to_string();
+        assert!(build.validate().is_ok());
+
+        // One more than a BPSV reader can parse
+        build.build = "9223372036854775808".to_string();
+        let err = build.validate().unwrap_err();
+        assert!(matches!(err, DatabaseError::InvalidField { ref field, .. } if field == "build"));
     }
 
     #[test]
